@@ -33,7 +33,10 @@ pub fn check_case(prop: &str, c: &Case) -> CaseResult {
     }
     r.valid_input = true;
     r.transitions = 2;
-    let out = match roundtrip(&c.wasm, &cfg, false) {
+    // C03 also follows the operands through a gc between parse and emit (entities are renumbered
+    // around what the pass removed); module-level differences after gc are C06's
+    let with_gc = c.cfg.get("gc").and_then(|x| x.as_bool()).unwrap_or(false);
+    let out = match roundtrip(&c.wasm, &cfg, with_gc) {
         Ok(o) => o,
         Err(f) => {
             // acceptance and panics are judged by C05 / C02; here the case simply has no output
@@ -57,7 +60,7 @@ pub fn check_case(prop: &str, c: &Case) -> CaseResult {
             return r;
         }
     };
-    match iso(&a, &b, IsoMode::RoundTrip) {
+    match iso(&a, &b, if with_gc { IsoMode::Gc } else { IsoMode::RoundTrip }) {
         Ok(maps) => {
             r.nontrivial = maps.renumbered() || maps.elided_ops > 0 || maps.inserted_else > 0 || out != c.wasm;
         }
@@ -69,8 +72,18 @@ pub fn check_case(prop: &str, c: &Case) -> CaseResult {
                 // mismatch there means an operand denotes the wrong entity, which is C03's business
                 let scaffold = c.family == "opcensus" || c.family == "body";
                 let body = is_body_sig(&m.sig) || scaffold;
+                if with_gc && !(is_body_sig(&m.sig) || m.sig.starts_with("data-") || m.sig.starts_with("elem-")) {
+                    continue;
+                }
+                let body = body || with_gc;
                 if (prop == "C03") == body {
-                    let sig = if scaffold && !is_body_sig(&m.sig) { format!("operand-denotes-other-entity:{}", m.sig) } else { m.sig };
+                    let sig = if with_gc {
+                        format!("after-gc:{}", m.sig)
+                    } else if scaffold && !is_body_sig(&m.sig) {
+                        format!("operand-denotes-other-entity:{}", m.sig)
+                    } else {
+                        m.sig
+                    };
                     r.violations.push(Violation::new(prop, sig, m.detail, c));
                 }
             }
@@ -97,6 +110,11 @@ pub fn run(prop: &'static str, args: &Args) -> i32 {
     let ms = crate::props::families::members(fams, args, &mut ev);
     let mut cases: Vec<Case> = ms.iter().map(|m| Case::of(m).with(Cfg::default().json())).collect();
     if prop == "C03" {
+        for m in ms.iter().filter(|m| ["reach", "minimal", "struct", "funcs"].contains(&m.family)) {
+            let mut j = Cfg::default().json();
+            j["gc"] = json!(true);
+            cases.push(Case::of(m).with(j));
+        }
         cases.extend(crate::props::census::cases(args, &mut ev));
         cases.extend(crate::props::bodies::cases(args, &mut ev));
     }
